@@ -1410,6 +1410,16 @@ func (cs *State) enterPrecommit(height int64, round int32) {
 		logger.Debug("precommit step; +2/3 prevoted locked block; relocking")
 		cs.LockedRound = round
 
+		// The polka of this round is for the locked block: it is the valid block as well. addVote and
+		// handleCompleteProposal only update Valid* when ProposalBlock hashes to the polka, which a node
+		// that re-locks without this round's proposal does not satisfy; it would keep proposing a stale
+		// ValidBlock while prevoting its locked block.
+		if cs.ValidRound < round {
+			cs.ValidRound = round
+			cs.ValidBlock = cs.LockedBlock
+			cs.ValidBlockParts = cs.LockedBlockParts
+		}
+
 		if err := cs.eventBus.PublishEventRelock(cs.RoundStateEvent()); err != nil {
 			logger.Error("failed publishing event relock", "err", err)
 		}
